@@ -316,6 +316,12 @@ def cases(tier, seed):
     for c in out:
         del c['cost']
         del c['n']
+    # several model OBJECTS on one code object (every ordered pair of deformation configurations of the class,
+    # the same direction and rate): the second model's probabilities must be its own
+    for name, size in small_codes(tier):
+        if len(_defs(name)) >= 3:
+            out.append({'part': 'models', 'cls': name, 'size': size, 'deformation': None, 'dirs': [GENERIC],
+                        'ps': [0.1]})
     return out
 
 
@@ -1017,7 +1023,45 @@ def _eval_metropolis(case):
     return res
 
 
+def _eval_models(case):
+    code = F.get_class(case['cls'])(*case['size'])
+    n = code.n
+    r = _rvec(case['dirs'][0])
+    p = case['ps'][0]
+    res = {'evals': 0, 'nontrivial': 0, 'violations': [], 'outcomes': [], 'samples': [],
+           'extra': {'model_pairs': 0}}
+    sigs = [tuple(s if j == i else 0 for j in range(n)) for i in range(n) for s in (1, 2, 3)]
+    sigs.append(tuple((i % 3) + 1 for i in range(n)))
+    outcomes = set()
+    for d1, d2 in itertools.permutations(_defs(case['cls']), 2):
+        res['extra']['model_pairs'] += 1
+        m1 = _model({'deformation': d1}, r)
+        for sg in sigs[:3]:
+            m1.error_probability(_vec(sg, n), code, p)
+        m2 = _model({'deformation': d2}, r)
+        ch = _channel(_perms(code, d2), r, p)
+        differs = _channel(_perms(code, d1), r, p) != ch
+        for sg in sigs:
+            res['evals'] += 1
+            res['nontrivial'] += int(differs)
+            want = _ref_prob(ch, sg)
+            got = float(m2.error_probability(_vec(sg, n), code, p))
+            outcomes.add('%.6g' % want)
+            if abs(got - want) > 1e-12 * max(1.0, want) + 1e-9 * want and len(res['violations']) < 3:
+                res['violations'].append({
+                    'key': {'part': 'models', 'kind': 'probability-of-another-model', 'cls': case['cls'],
+                            'size': list(case['size']), 'first_model': None if not d1 else [d1[0], d1[1]],
+                            'second_model': None if not d2 else [d2[0], d2[1]]},
+                    'detail': {'error': _pstr(sg), 'got': got, 'expected': want, 'p': p, 'r': list(r)}})
+    res['outcomes'] = sorted(outcomes)[:50]
+    res['samples'] = [{'part': 'models', 'cls': case['cls'], 'size': list(case['size']),
+                       'pairs': res['extra']['model_pairs']}]
+    return res
+
+
 def eval_case(case):
+    if case['part'] == 'models':
+        return _eval_models(case)
     if case['part'] == 'metropolis':
         return _eval_metropolis(case)
     if case['part'] == 'large-n':
